@@ -1358,7 +1358,7 @@ class SADCount(Sym):
 
     def sym_eq(self, ex, other):
         if isinstance(other, SADCount) and self.distinct_jobs != other.distinct_jobs:
-            ex.assumptions_used.add("len(set(values)) == len(mapping) iff no two keys have equal values (finite cardinalities)")
+            ex.assumptions_used.add("len(set(values)) == len(mapping) iff no two keys have equal values (Lean: values_card_eq_iff_injective in /verif/lean/Meta.lean, re-checked in the thorough tier)")
             a, b = z3.Consts("ca cb", AD)
             return SBool(z3.ForAll([a, b], z3.Implies(z3.And(self.dom(a), self.dom(b), a != b), JOBOF(a) != JOBOF(b))))
         raise Unsupported("comparison of this count")
@@ -1541,6 +1541,7 @@ class SJobAtK(SJobK):
 ISROOT = z3.Function("ISROOT", AD, z3.BoolSort())
 PANC = z3.Function("PANC", AD, AD, z3.BoolSort())          # x.startswith(s + "/")
 MZ = z3.Function("MZ", AD, z3.BoolSort())
+STRPFX = z3.Function("STRPFX", AD, AD, z3.BoolSort())      # x.startswith(s) as strings
 MEMBER_UNDER = z3.Function("MEMBER_UNDER", AD, z3.IntSort(), z3.BoolSort())   # archive member k lies under directory d (d == "" or name.startswith(d + "/"))
 
 
@@ -1566,6 +1567,10 @@ class SADz(SAD):
             def sw(p):
                 if isinstance(p, tuple) and p[0] == "with-slash":
                     return SBool(PANC(p[1], self.e))
+                if isinstance(p, SAD):
+                    # a plain string prefix: implied by "is a proper ancestor", but 'a/1' is also a string prefix of its sibling 'a/10'
+                    ex.assume(z3.Implies(z3.Or(PANC(p.e, self.e), p.e == self.e, ISROOT(p.e)), STRPFX(p.e, self.e)))
+                    return SBool(STRPFX(p.e, self.e))
                 raise Unsupported("startswith argument")
             return NativeStub(sw, "str.startswith")
         raise Unsupported(f"str.{name} on a directory name")
